@@ -1,9 +1,80 @@
 import CotengraVerif.Driver.Util
+import CotengraVerif.Model.DP
 
 namespace Cotengra.Driver.C09
-open Lean Cotengra Cotengra.Driver
+open Lean Cotengra Cotengra.Driver Cotengra.DP
 
-/-- ops of property C09 (name them "c09.<op>") -/
-def handlers : List (String × Handler) := []
+/-- objective: {"kind": "flops"|"max"|"size"|"write"|"combo"|"limit", "factor": n} -/
+def objOf (j : Json) : Except String Objective := do
+  let k ← (← field j "kind").getStr?
+  let f ← natOf (fieldD j "factor" (jNat 64))
+  match k with
+  | "flops" => pure .flops
+  | "max" => pure .max
+  | "size" => pure .size
+  | "write" => pure .write
+  | "combo" => pure (.combo f)
+  | "limit" => pure (.limit f)
+  | _ => throw s!"unknown objective {k}"
+
+def jTree : BT → Json
+  | .leaf i => jNat i
+  | .node l r => Json.arr #[jTree l, jTree r]
+
+/-- op `c09.concost`: one of the six `compute_con_cost_*` on explicit temp legs.
+    `appearances` and `sizes` arrive as a network whose inputs/outputs realise them. -/
+def concost : Handler := fun j => do
+  let g ← netOf (← field j "net")
+  let obj ← objOf (← field j "obj")
+  let temp ← pairList (← field j "temp")
+  let a ← natOf (← field j "iscore")
+  let b ← natOf (← field j "jscore")
+  let r := conCost g obj temp a b
+  pure (jObj [("legs", jPairs r.1), ("score", jNat r.2)])
+
+/-- op `c09.merge`: the sorted simultaneous iteration -/
+def merge : Handler := fun j => do
+  let a ← pairList (← field j "ilegs")
+  let b ← pairList (← field j "jlegs")
+  let r := mergeLegs a b
+  pure (jObj [("legs", jPairs r.1), ("shared", jBool r.2)])
+
+def jTable (t : Table) : Json :=
+  jArr (t.map fun (k, e) => jObj [("key", jNat k), ("legs", jPairs e.legs), ("score", jNat e.score),
+                                 ("path", jPairs (bitpath e.tree))])
+
+/-- op `c09.dp`: the whole `optimize_optimal_connected` on `where = all nodes`.
+    Returns score, tree, ssa path, final cap; `tables: true` adds every table. -/
+def dpOp : Handler := fun j => do
+  let g ← netOf (← field j "net")
+  let obj ← objOf (← field j "obj")
+  let outer ← (fieldD j "outer" (jBool false)).getBool?
+  let cap ← natOf (← field j "cap")
+  let fuel ← natOf (fieldD j "fuel" (jNat 400))
+  let n := g.inputs.length
+  match loop g obj outer n fuel cap (initTabs g n) with
+  | none => pure (jObj [("result", jStr "no-result")])
+  | some (tabs, capEnd) =>
+    match single (tab tabs n) with
+    | none => pure (jObj [("result", jStr "unpack-error")])
+    | some e =>
+      let (_, _, ssa) := ssaOfTree n e.tree
+      let base := [("result", jStr "ok"), ("score", jNat e.score), ("tree", jTree e.tree),
+                   ("ssa_path", jPairs ssa), ("cap_end", jNat capEnd),
+                   ("legs", jPairs e.legs)]
+      let wantTabs := (fieldD j "tables" (jBool false)).getBool?.toOption.getD false
+      pure (jObj (if wantTabs then base ++ [("tables", jArr (tabs.map jTable))] else base))
+
+/-- op `c09.treecost`: price a given tree under every requested objective with the
+    `ContractionTree` model (Model/Net.lean), and say whether it has an outer product -/
+def treecost : Handler := fun j => do
+  let g ← netOf (← field j "net")
+  let t ← btOf (← field j "tree")
+  let objs ← (← arrOf (← field j "objs")).mapM objOf
+  pure (jObj [("costs", jNats (objs.map fun o => modelTreeCost g o t)),
+              ("outer", jBool (modelHasOuter g t))])
+
+def handlers : List (String × Handler) :=
+  [("c09.concost", concost), ("c09.merge", merge), ("c09.dp", dpOp), ("c09.treecost", treecost)]
 
 end Cotengra.Driver.C09
